@@ -3,6 +3,7 @@
 import itertools
 
 import numpy as np
+from fractions import Fraction as F
 
 from symx import term as tm, oracle
 from symx.sym import Ctx, use_ctx, sym, symarray, SymReal, Inconclusive
@@ -236,6 +237,46 @@ def build(tier):
         S2.run.pre = pre2
         blocks.append(dict(name='fluid(rho0>0)', setup=S2, run=S2.run, obs=obs2, ctx=c2, pre=pre2,
                            samplers=[S2.sampler(), sampler_moving(S2)]))
+
+        # total energy density supplied instead of the specific internal energy: inputs rho, rho0 (eps derived)
+        S4 = FluidSetup('fluid')
+        rho4 = sym('rho')
+        inputs4 = {k_: v_ for k_, v_ in S4.run.inputs.items() if k_ != 'eps'}
+        inputs4['rho'] = gr.grid(rho4)
+        pre4 = S4.pre + [tm.lt(tm.ZERO, S4.rho0.t), tm.lt(tm.ZERO, rho4.t)]
+        run4 = JetRun(3, inputs4, pre4, fdkind='unint', resolutions=POINT_RES, fd_order=2)
+        c4 = Ctx(pre=pre4, fork=False)
+        obs4 = []
+        with use_ctx(c4):
+            rel4 = run4.symbolic_rel()
+            eps4 = (rho4 - S4.rho0) / S4.rho0
+            h4 = 1 + eps4 + S4.p / S4.rho0
+            sg4 = oracle.det(gr.ungrid(S4.ga)).sqrt()
+            grp = 'rho and rho0 supplied: eps == (rho - rho0)/rho0 and what is built on it'
+            obs4.append(Ob('rho-rho0: eps', rel4['eps'][0, 0, 0], eps4, pre4, group=grp, get=lambda r: r['eps']))
+            obs4.append(Ob('rho-rho0: rho', rel4['rho'][0, 0, 0], rho4, pre4, group=grp, get=lambda r: r['rho']))
+            obs4.append(Ob('rho-rho0: enthalpy', rel4['enthalpy'][0, 0, 0], h4, pre4, group=grp, get=lambda r: r['enthalpy']))
+            obs4.append(Ob('rho-rho0: conserved_E', rel4['conserved_E'][0, 0, 0], S4.rho0 * S4.W * sg4 * eps4, pre4, group=grp,
+                           get=lambda r: r['conserved_E']))
+            obs4.append(Ob('rho-rho0: rho_n', rel4['rho_n'][0, 0, 0], (rho4 + S4.p) * S4.W * S4.W - S4.p, pre4, group=grp,
+                           get=lambda r: r['rho_n']))
+            obs4.append(Ob('rho-rho0: Ttrace', rel4['Ttrace'][0, 0, 0], -rho4 + 3 * S4.p, pre4, group=grp, get=lambda r: r['Ttrace']))
+
+        class _S4:
+            pre = pre4
+            run = run4
+
+            @staticmethod
+            def sampler():
+                base = S4.sampler()
+
+                def f(rng):
+                    env = base(rng)
+                    env.pop('eps', None)
+                    env['rho'] = F(rng.randint(1, 24), 8)
+                    return env
+                return f
+        blocks.append(dict(name='fluid(rho, rho0 supplied)', setup=_S4, run=run4, obs=obs4, ctx=c4, pre=pre4, samplers=[_S4.sampler()]))
 
         # stress-energy tensor supplied directly
         ST = FluidSetup('T')
